@@ -90,6 +90,8 @@ def apply_op(project, op, label):
         p.do(cs)
     elif k == "undo":
         p.history.undo()
+    elif k == "undo_drop":
+        p.history.undo(drop=True)
     elif k == "redo":
         p.history.redo()
     elif k == "undo_sel":
